@@ -27,6 +27,16 @@ CASES = {
         (REQ, H, 1, 1, REQF + [NAME], 0, -1, 0), (RESP, D, 1, 0, b"x", -1), (RESP, GOAWAY, 0, 2, b"")], []),
     "data-before-headers-close-server": ("response DATA before any response HEADERS, then the server conn is closed: must not panic", 1, [
         (REQ, H, 1, 1, REQF + [NAME], 0, -1, 0), (RESP, D, 1, 0, b"x", -1)], [[2, 0]]),
+    "data-before-headers-rst-client": ("response DATA before any response HEADERS, then RST_STREAM by the server (client conn): must not panic (seeded C15-14)", 0, [
+        (REQ, H, 1, 0, REQF + [NAME], 0, -1, 0), (REQ, D, 1, 1, MSG, -1), (RESP, D, 1, 0, MSG, -1), (RESP, RST, 1, 2)], []),
+    "data-before-headers-rst-server": ("response DATA before any response HEADERS, then RST_STREAM by the server (server conn): must not panic (seeded C15-14)", 1, [
+        (REQ, H, 1, 0, REQF + [NAME], 0, -1, 0), (RESP, D, 1, 0, MSG[:7], -1), (RESP, RST, 1, 2)], []),
+    "data-before-headers-rst-by-client": ("response DATA before any response HEADERS, then RST_STREAM by the client: must not panic", 1, [
+        (REQ, H, 1, 0, REQF + [NAME], 0, -1, 0), (RESP, D, 1, 0, MSG[:7], -1), (REQ, RST, 1, 8)], []),
+    "data-before-headers-then-stream": ("response DATA before the response HEADERS, then HEADERS announcing gRPC and more DATA: the byte count "
+                                        "of the early DATA stays in `actual` and the uint32 subtraction in traceMessageLocked wraps (model mirrors it)", 0, [
+        (REQ, H, 1, 0, REQF + [NAME], 0, -1, 0), (RESP, D, 1, 0, MSG, -1), (RESP, H, 1, 0, RESPF, 0, -1, 0),
+        (RESP, D, 1, 0, MSG, -1), (REQ, RST, 1, 8)], []),
     "reset-before-headers": ("a named stream reset by the server before any response headers: one trace ending in the reset", 0, [
         (REQ, H, 1, 1, REQF + [NAME], 0, -1, 0), (RESP, RST, 1, 2)], []),
     "refused-then-retried": ("REFUSED_STREAM, then a new attempt with the same test name: only the retry's trace", 0, [
